@@ -214,3 +214,64 @@ Example payload_example :
   /\ sym_signing_payload [7] (repeat 0 108 ++ [1; 2; 84; 65; 5]) = Ok ([7; 1; 2; 84; 65; 5])
   /\ nem_signing_payload (repeat 1 48 ++ repeat 2 68 ++ [3; 4]) = repeat 1 48 ++ [3; 4].
 Proof. vm_compute. repeat split; reflexivity. Qed.
+
+(* ================= non-vacuity of the premises ================= *)
+From Symv Require Import Props.Examples.
+From Coq Require Import Lia.
+
+(* the premises `ed_laws o` and `flavour_ok fl (g_L o) zero_refused` of the generic scheme theorems (verify_sign,
+   verify_modified_iff_collision, verify_S_unique, strict_verifier_key_checks) are jointly satisfiable: the toy group of
+   Props/Examples.v (integers modulo the regenerated order ed_l, base point 1) is lawful, both shipped flavours are ok for its order,
+   its base point has the order premise of verify_modified_iff_collision, and verify_sign applies to it.  This shows that the record
+   of laws is not contradictory; it says nothing about edwards25519. *)
+Example generic_scheme_premises_nonvacuous :
+  ed_laws toy_ops /\ flavour_ok sym_flavour (g_L toy_ops) false /\ flavour_ok nem_flavour (g_L toy_ops) true
+  /\ (forall x, g_smul toy_ops x (g_B toy_ops) = g_zero toy_ops -> x mod g_L toy_ops = 0)
+  /\ (forall k m, verify toy_ops sym_flavour (public_key toy_ops sym_flavour k) m (sign toy_ops sym_flavour k m) = Ok true).
+Proof.
+  exact (conj toy_group_is_lawful (conj sym_flavour_ok (conj nem_flavour_ok (conj toy_base_point_order
+    (fun k m => @EdAbstractProofs.verify_sign toy_point toy_ops sym_flavour false toy_group_is_lawful sym_flavour_ok k m
+                  (fun H => False_ind _ (Bool.diff_false_true H))))))).
+Qed.
+Print Assumptions generic_scheme_premises_nonvacuous.
+
+(* [EdZ_group_premise] (premise of every *_partial theorem above) CANNOT be proved here and is not proved anywhere.  What this Example
+   shows is only that it is NOT REFUTED by a few kernel-evaluated samples of the laws it bundles, on the integer formulas of Sym/EdZ.v
+   themselves (points compared projectively by same_point of Props/Examples.v: x1 z2 = x2 z1, y1 z2 = y2 z1 mod q): associativity, commutativity, neutral element,
+   inverse, 0 P = O, (x + y) P = x P + y P, (x y) P = x (y P), the order range and gcd, is_neutral, a 32-byte canonical non-zero
+   encoding.  Whole sign / verify / shared-key samples (one scalar multiplication costs ~17 s under vm_compute) are executed by the
+   harness through the extracted model against OpenSSL and the RFC 8032 reference instead (harness/checks/c07.py, c14.py). *)
+Example group_premise_not_refuted_on_samples :
+  let B2 := scalarmult 2 ed_B in let B3 := scalarmult 3 ed_B in let K := scalarmult 1000003 ed_B in let E3 := encodepoint B3 in
+  same_point (edwards_add ed_B (edwards_add B2 K)) (edwards_add (edwards_add ed_B B2) K) = true
+  /\ same_point (edwards_add B2 K) (edwards_add K B2) = true
+  /\ same_point (edwards_add ed_ident K) K = true
+  /\ same_point (edwards_add K (edwards_neg K)) ed_ident = true
+  /\ same_point (scalarmult 0 K) ed_ident = true
+  /\ same_point (scalarmult (2 + 3) K) (edwards_add (scalarmult 2 K) (scalarmult 3 K)) = true
+  /\ same_point (scalarmult (2 * 3) K) (scalarmult 2 (scalarmult 3 K)) = true
+  /\ same_point B2 B3 = false
+  /\ (2 ^ 252 < ed_l < 2 ^ 253 /\ Z.gcd 64 ed_l = 1)
+  /\ isoncurve K = true /\ is_neutral ed_ident = true /\ is_neutral K = false
+  /\ length E3 = 32%nat /\ iscanonical E3 = true /\ E3 <> zeros 32.
+Proof. vm_compute. repeat split; try reflexivity. discriminate. Qed.
+Print Assumptions group_premise_not_refuted_on_samples.
+
+(* the remaining premises: a 52-byte aggregate head (payload_ignores_aggregate_tail), an epoch range and index
+   (voting_epochs_descending), and a toy signature scheme in which honest signatures verify, with 32-byte keys and 64-byte
+   signatures (voting_certificates_verify) *)
+Example premises_nonvacuous :
+  let head := [1; 2; 65; 66] ++ repeat 9 48 in
+  (length head = 52%nat /\ spec_is_aggregate head = true
+   /\ sym_signing_payload [7] (repeat 0 108 ++ head ++ [1; 2; 3]) = Ok ([7] ++ head))
+  /\ (3 <= 5 /\ (2 < Z.to_nat (5 + 1 - 3))%nat /\ nth 2 (vk_identifiers 3 5) 0 = 5 - Z.of_nat 2)
+  /\ (let root_sign := fun m : bytes => firstn 64 (m ++ repeat 0 64) in
+      let verify := fun (pub m s : bytes) => beqb s (root_sign m) in
+      (forall m, verify [1] m (root_sign m) = true) /\ Forall (fun key => length key = 32%nat) [repeat 3 32; repeat 4 32]
+      /\ (forall m, length (root_sign m) = 64%nat)).
+Proof.
+  split; [vm_compute; repeat split; reflexivity|]. split; [vm_compute; repeat split; try reflexivity; try discriminate; repeat constructor|].
+  cbv zeta. split; [intro m; apply beqb_refl|]. split; [repeat constructor|].
+  intro m. rewrite firstn_length, app_length, repeat_length. lia.
+Qed.
+Print Assumptions premises_nonvacuous.
